@@ -284,7 +284,7 @@ pub mod g_raw {
             pub name: String,
             #[ruma_api(query_all)]
             pub params: BTreeMap<String, String>,
-            /// optional, as in `media::create_content`: finding F17
+            /// optional, as in `media::create_content`: finding G17
             #[ruma_api(header = CONTENT_TYPE)]
             pub content_type: Option<String>,
             #[ruma_api(raw_body)]
